@@ -38,7 +38,7 @@ REQUIRED = [
     "order_sound", "order_fuel_sufficient", "predecessors_correct", "order_assert_never_fires",
     "pop_block_targets_are_targets",
     "table_covers_python312", "table_flag_methods_consistent", "table_block_facts",
-    "try_ranges_closed_partial", "kept_starts_distinct",
+    "try_ranges_closed_partial", "kept_starts_distinct", "try_ranges_closed",
 ]
 
 NPROC = min(16, os.cpu_count() or 4)
@@ -776,6 +776,9 @@ def _worker_sources(args):
       # guard of try_ranges_closed_partial only: pycnite's inclusive `end` sometimes falls between two ops
       # (e.end not in offset_to_op -> the max() branch of _add_exception_block); counted, not a failure
       prem["streams_with_a_range_ending_between_ops(outside try_ranges_closed_partial)"] += 1
+    if p.get("endsFresh", 0) != 1:
+      # guard of try_ranges_closed (two kept ranges ending between the same two instructions): counted
+      prem["streams_outside_endsFresh(outside try_ranges_closed)"] += 1
     if model != exp:
       mism.append({"kind": "setup-except-model-vs-real", "source_name": mt[0], "code": mt[1], "source": mt[2],
                    "driver_input": line if len(line) < 3000 else line[:3000] + "...",
